@@ -32,6 +32,11 @@ bvars == <<cmds, done, open, obs, phase>>
 
 Snapshot == VList(Unify(done))
 
+\* the values of the arrays that "append" commands take elements from (harness: the same values as an IndexedArray64 /
+\* IndexedArray32 with a permuting index, an IndexedOptionArray64, a ListOffsetArray64 with a non-zero origin)
+SrcVals == [idx64 |-> <<VInt(30), VInt(10), VInt(20)>>, idx32 |-> <<VInt(30), VInt(10), VInt(20)>>,
+            opt |-> <<VNone, VInt(6), VInt(5)>>, lists |-> <<VList(<<VInt(2)>>), VList(<<>>), VList(<<VInt(3), VInt(4)>>)>>]
+
 \* ---------------------------------------------------------------- frames
 LFrame == [k |-> "list", xs |-> <<>>]
 RFrame(nm) == [k |-> "rec", nm |-> nm, ks |-> <<>>, vs |-> <<>>, cur |-> 0]
@@ -60,6 +65,9 @@ Effect(c) ==
        [] c.c = "int" -> value(VInt(c.x))
        [] c.c = "real" -> value(VReal(c.n, c.d))
        [] c.c = "str" -> value(VStr(c.b))
+       \* append(array, at): the element `at` of an existing array is placed as one value (ArrayBuilder::append; extend is
+       \* append for every position).  The sources are fixed arrays of several classes holding SrcVals.
+       [] c.c = "append" -> IF c.at >= 0 /\ c.at < Len(SrcVals[c.src]) THEN value(SrcVals[c.src][c.at + 1]) ELSE bad
        [] c.c = "beginlist" -> push(LFrame)
        [] c.c = "endlist" ->
             IF open # <<>> /\ Top.k = "list" THEN good(PutInto(below, done, VList(Top.xs))) ELSE bad
